@@ -1,4 +1,85 @@
+(* C09 - zones survive write-then-read as text; equivalent zone-file spellings agree.
+   Statements only; proofs are in Proofs/ZoneText*.v.  Model: Model/ZoneTextM.v. *)
 From DV Require Import Base.Prelude Model.NameM Model.ZoneTextM.
-Theorem placeholder_c09 : ttl_from_text [49] = Ok 1.
+From DV Require Import Proofs.ZoneTextBase Proofs.ZoneTextInv Proofs.ZoneTextRespell.
+Open Scope Z_scope.
+
+(* The decimal text of every TTL in range reads back as that TTL. *)
+Theorem ttl_text_roundtrip : forall n, 0 <= n <= MAX_TTL -> ttl_from_text (dec n) = Ok n.
+Proof. exact ttl_from_text_dec. Qed.
+Print Assumptions ttl_text_roundtrip.
+
+(* After a successful load no node holds a CNAME (or RRSIG(CNAME)) together with other data -
+   for every input text and every reader configuration. *)
+Theorem cname_exclusive_after_load : forall c text o z,
+  from_text c text = Ok (o, z) -> zone_excl z.
+Proof. exact cname_exclusive_after_load_proof. Qed.
+Print Assumptions cname_exclusive_after_load.
+
+(* Every owner name of the loaded zone is (the relativization of) a name inside the origin. *)
+Theorem loaded_names_inside : forall c text o z,
+  from_text c text = Ok (o, z) ->
+  z = [] \/ exists zo, o = Some zo /\ Forall (in_zone (c_rel c) zo) (map fst z).
+Proof. exact loaded_names_inside_proof. Qed.
+Print Assumptions loaded_names_inside.
+
+(* A record line whose owner lies outside the origin changes nothing but `last_name`, whatever
+   follows the owner on that line ... *)
+Theorem outside_origin_ignored : forall c s co zo ov n toks,
+  corigin s = Some co -> zorigin s = Some zo ->
+  as_name true ov (Some co) false None = Ok n ->
+  is_subdomain n zo = false ->
+  rr_line c s false (TId ov :: toks) false = Ok (set_last s n).
+Proof. exact outside_origin_line_proof. Qed.
+Print Assumptions outside_origin_ignored.
+
+(* ... and `last_name` does not influence a following line that spells its owner. *)
+Theorem outside_origin_then_explicit_owner : forall c s m toks lerr t,
+  rr_line c (set_last s m) false (t :: toks) lerr = rr_line c s false (t :: toks) lerr.
+Proof. exact last_name_irrelevant_proof. Qed.
+Print Assumptions outside_origin_then_explicit_owner.
+
+(* "<ttl> <class>" and "<class> <ttl>" load alike, with an explicit or an inherited owner. *)
+Theorem respell_ttl_class_order : forall c s tv cv t rest lerr,
+  ttl_from_text tv = Ok t ->
+  class_from_text cv = Some (c_class c) ->
+  (forall ov, rr_line c s false (TId ov :: TId tv :: TId cv :: rest) lerr =
+              rr_line c s false (TId ov :: TId cv :: TId tv :: rest) lerr) /\
+  rr_line c s true (TId tv :: TId cv :: rest) lerr = rr_line c s true (TId cv :: TId tv :: rest) lerr.
+Proof. exact respell_ttl_class_order_proof. Qed.
+Print Assumptions respell_ttl_class_order.
+
+(* Spelling the owner again and inheriting it (leading white space) load alike. *)
+Theorem respell_owner : forall c s co ov n t toks lerr,
+  corigin s = Some co ->
+  lastname s = Some n ->
+  as_name true ov (Some co) false None = Ok n ->
+  rr_line c s false (TId ov :: t :: toks) lerr = rr_line c s true (t :: toks) lerr.
+Proof. exact respell_owner_proof. Qed.
+Print Assumptions respell_owner.
+
+(* ---------- non-vacuity: the hypotheses are satisfiable, the model really loads zones ---------- *)
+Definition ex_origin : name := [[101; 120]; []].   (* "ex." *)
+Definition ex_cfg := mkcfg (Some ex_origin) true 1 true.
+(* "@ 300 IN SOA ns hm 1 2 3 4 5\n@ 300 IN NS ns\nwww IN 60 CNAME ns\nout.side. 5 IN A 1.2.3.4\n" *)
+Definition ex_text : list Z :=
+  [64;32;51;48;48;32;73;78;32;83;79;65;32;110;115;32;104;109;32;49;32;50;32;51;32;52;32;53;10;
+   64;32;51;48;48;32;73;78;32;78;83;32;110;115;10;
+   119;119;119;32;73;78;32;54;48;32;67;78;65;77;69;32;110;115;10;
+   111;117;116;46;115;105;100;101;46;32;53;32;73;78;32;65;32;49;46;50;46;51;46;52;10].
+
+Example ex_loads : exists z, from_text ex_cfg ex_text = Ok (Some ex_origin, z) /\ length z = 2%nat.
+Proof. eexists. split; [vm_compute; reflexivity|reflexivity]. Qed.
+
+Example ex_class_ttl_hyps :
+  ttl_from_text [54; 48] = Ok 60 /\ class_from_text [73; 78] = Some (c_class ex_cfg).
+Proof. split; reflexivity. Qed.
+
+Example ex_outside_hyps :
+  as_name true [111;117;116;46;115;105;100;101;46] (Some ex_origin) false None = Ok [[111;117;116];[115;105;100;101];[]] /\
+  is_subdomain [[111;117;116];[115;105;100;101];[]] ex_origin = false.
+Proof. split; reflexivity. Qed.
+
+Example ex_owner_hyps :
+  as_name true [119;119;119] (Some ex_origin) false None = Ok [[119;119;119];[101;120];[]].
 Proof. reflexivity. Qed.
-Print Assumptions placeholder_c09.
